@@ -57,7 +57,7 @@ void *vf_pool_mu_addr (void);
 enum opc { OP_LOCK = 1, OP_UNLOCK, OP_RLOCK, OP_RUNLOCK, OP_TRYLOCK, OP_RTRYLOCK, OP_UNLOCK_IF, OP_RUNLOCK_IF,
 	   OP_UNLOCK_NW, OP_WR, OP_RD, OP_INC, OP_DEC, OP_CVWAIT, OP_SIGNAL, OP_BROADCAST, OP_AWAIT, OP_MUWAIT,
 	   OP_NOTE_NEW, OP_NOTIFY, OP_IS_NOTIFIED, OP_NOTE_WAIT, OP_NOTE_FREE, OP_NOTE_EXPIRY,
-	   OP_CTR_NEW, OP_CTR_ADD, OP_CTR_VALUE, OP_CTR_WAIT, OP_CTR_FREE, OP_ONCE, OP_WAITN,
+	   OP_AFTER_BLOCKED, OP_CTR_NEW, OP_CTR_ADD, OP_CTR_VALUE, OP_CTR_WAIT, OP_CTR_FREE, OP_ONCE, OP_WAITN,
 	   OP_DBG_MU, OP_DBG_MUW, OP_DBG_CV, OP_DBG_CVW, OP_UNREF, OP_YIELD, OP_ASSERT_HELD, OP_RASSERT_HELD, OP_IS_READER,
 	   OP_SEM_P, OP_SEM_PD, OP_SEM_V };
 
@@ -84,6 +84,37 @@ static int in_try[16];
 static int once_runs[256], once_done[256];
 static int sleeps_in_lock[16]; static int in_lock_call[16];
 static int expect_stuck_ok;
+/* C10: history of the completed nsync_counter_add / nsync_counter_value calls per counter (invocation and response
+   times in scheduler steps), checked for linearizability at the end of the execution */
+struct chist { int ctr; int kind; int delta; uint32_t res; long t0, t1; };
+static struct chist chist[64]; static int nchist; static uint32_t ctr_init[MAXOBJ];
+static void chist_add (int ctr, int kind, int delta, uint32_t res, long t0, long t1) {
+	if (nchist < 64) { struct chist *h = &chist[nchist++]; h->ctr = ctr; h->kind = kind; h->delta = delta; h->res = res; h->t0 = t0; h->t1 = t1; }
+}
+/* depth-first search for a linearization of the operations of counter c: `done` is the set already placed, v the value */
+static int chist_search (int c, unsigned long done, uint32_t v, int left) {
+	int i; int j;
+	if (left == 0) { return (1); }
+	for (i = 0; i != nchist; i++) {
+		if (chist[i].ctr != c || (done >> i & 1)) { continue; }
+		/* i may come next only if no other pending operation responded before i was invoked */
+		for (j = 0; j != nchist; j++) { if (j != i && chist[j].ctr == c && !(done >> j & 1) && chist[j].t1 < chist[i].t0) { break; } }
+		if (j != nchist) { continue; }
+		if (chist[i].kind == 0) { uint32_t nv = v + (uint32_t) chist[i].delta; if (chist[i].res == nv && chist_search (c, done | 1ul << i, nv, left - 1)) { return (1); } }
+		else { if (chist[i].res == v && chist_search (c, done | 1ul << i, v, left - 1)) { return (1); } }
+	}
+	return (0);
+}
+static void chist_check (void) {
+	int c;
+	for (c = 0; c != MAXOBJ; c++) {
+		int k = 0; int i;
+		for (i = 0; i != nchist; i++) { if (chist[i].ctr == c) { k++; } }
+		if (k != 0 && k <= 14 && !chist_search (c, 0, ctr_init[c], k)) {
+			vf_violation ("ctr-linearizable", "the values returned by nsync_counter_add / nsync_counter_value on counter k%d (%d calls) are not those of any sequential order consistent with the calls' real-time order", c, k);
+		}
+	}
+}
 static int waiting_mu[16]; static struct cond_arg *waiting_cond[16]; /* the condition of the nsync_mu_wait call a fiber is inside (C06 quiescence oracle) */
 
 static int nfibers_total;
@@ -139,8 +170,9 @@ static int cond_arg_eq (const void *a, const void *b) {
 	return (x->var == y->var && x->val == y->val);
 }
 /* the once function takes a while: several scheduling points between its start and its end */
-static void once_f0 (void) { vf_log ("cb f start"); once_runs[0]++; vf_sched_note (); vf_sched_note (); vf_sched_note (); vf_sched_note (); once_done[0] = 1; vf_log ("cb f end"); }
-static void once_farg (void *a) { int i = (int) (intptr_t) a; vf_log ("cb farg start"); once_runs[i]++; vf_sched_note (); vf_sched_note (); vf_sched_note (); vf_sched_note (); once_done[i] = 1; vf_log ("cb farg end"); }
+static int once_cb_len = 4; /* scheduling points inside the once function (header line `oncecb <n>`): a long-running initialiser lets the clock pass several of the waiters' polling deadlines */
+static void once_f0 (void) { int q; vf_log ("cb f start"); once_runs[0]++; for (q = 0; q != once_cb_len; q++) { vf_sched_note (); } once_done[0] = 1; vf_log ("cb f end"); }
+static void once_farg (void *a) { int i = (int) (intptr_t) a; int q; vf_log ("cb farg start"); once_runs[i]++; for (q = 0; q != once_cb_len; q++) { vf_sched_note (); } once_done[i] = 1; vf_log ("cb farg end"); }
 
 static nsync_time mk_deadline (struct op *o, char *txt, size_t n) {
 	nsync_time t;
@@ -216,6 +248,7 @@ static void run_prog (void *arg) {
 		case OP_DEC: vars[o->a]--; vf_log ("data w x%d %d", o->a, vars[o->a]); break;
 		case OP_RD: vf_log ("data r x%d %d", o->a, vars[o->a]); break;
 		case OP_YIELD: vf_sched_note (); break;
+		case OP_AFTER_BLOCKED: { long guard = 0; while (!vf_fiber_blocked (o->a) && guard++ < 20000) { vf_sched_note (); } break; } /* deterministic set-up order: go on once fiber a sleeps (or is done) */
 		case OP_CVWAIT: case OP_AWAIT: {
 			int res = 0; nsync_time t = mk_deadline (o, dt, sizeof (dt));
 			nsync_note cn = o->e >= 0 ? notes[o->e] : NULL;
@@ -272,9 +305,9 @@ static void run_prog (void *arg) {
 		case OP_NOTE_EXPIRY: if (notes[o->a]) { nsync_time t; vf_log ("call nsync_note_expiry %s", vf_name_of (notes[o->a])); t = nsync_note_expiry (notes[o->a]); vf_log ("ret nsync_note_expiry %lld:%ld", (long long) NSYNC_TIME_SEC (t), (long) NSYNC_TIME_NSEC (t));
 				{ int64_t got = nsync_time_cmp (t, nsync_time_no_deadline) == 0 ? INT64_MAX : (int64_t) NSYNC_TIME_SEC (t) * 1000000000 + NSYNC_TIME_NSEC (t);
 				  if (got != exp_min[o->a]) { vf_violation ("expiry-min", "nsync_note_expiry = %lld but the minimum of the deadlines from the note to its root is %lld", (long long) got, (long long) exp_min[o->a]); } } } break;
-		case OP_CTR_NEW: vf_log ("call nsync_counter_new %d", o->b); vf_api_enter (); ctrs[o->a] = nsync_counter_new ((uint32_t) o->b); vf_api_leave (); vf_log ("ret nsync_counter_new %s", ctrs[o->a] ? vf_name_of (ctrs[o->a]) : "NULL"); break;
-		case OP_CTR_ADD: if (ctrs[o->a]) { uint32_t r; vf_log ("call nsync_counter_add %s %d", vf_name_of (ctrs[o->a]), o->b); vf_api_enter (); r = nsync_counter_add (ctrs[o->a], o->b); vf_api_leave (); vf_log ("ret nsync_counter_add %u", r); } break;
-		case OP_CTR_VALUE: if (ctrs[o->a]) { uint32_t r; vf_log ("call nsync_counter_value %s", vf_name_of (ctrs[o->a])); vf_api_enter (); r = nsync_counter_value (ctrs[o->a]); vf_api_leave (); vf_log ("ret nsync_counter_value %u", r); } break;
+		case OP_CTR_NEW: ctr_init[o->a] = (uint32_t) o->b; vf_log ("call nsync_counter_new %d", o->b); vf_api_enter (); ctrs[o->a] = nsync_counter_new ((uint32_t) o->b); vf_api_leave (); vf_log ("ret nsync_counter_new %s", ctrs[o->a] ? vf_name_of (ctrs[o->a]) : "NULL"); break;
+		case OP_CTR_ADD: if (ctrs[o->a]) { uint32_t r; long t0 = vf_steps (); vf_log ("call nsync_counter_add %s %d", vf_name_of (ctrs[o->a]), o->b); vf_api_enter (); r = nsync_counter_add (ctrs[o->a], o->b); vf_api_leave (); vf_log ("ret nsync_counter_add %u", r); chist_add (o->a, 0, o->b, r, t0, vf_steps ()); } break;
+		case OP_CTR_VALUE: if (ctrs[o->a]) { uint32_t r; long t0 = vf_steps (); vf_log ("call nsync_counter_value %s", vf_name_of (ctrs[o->a])); vf_api_enter (); r = nsync_counter_value (ctrs[o->a]); vf_api_leave (); vf_log ("ret nsync_counter_value %u", r); chist_add (o->a, 1, 0, r, t0, vf_steps ()); } break;
 		case OP_CTR_WAIT: if (ctrs[o->a]) { uint32_t r; nsync_time t = mk_deadline (o, dt, sizeof (dt)); vf_log ("call nsync_counter_wait %s %s", vf_name_of (ctrs[o->a]), dt); vf_api_enter (); r = nsync_counter_wait (ctrs[o->a], t); vf_api_leave (); vf_log ("ret nsync_counter_wait %u", r);
 				if (r == 0) { int q; for (q = 0; q + 1 < nvar; q++) { vf_log ("data r x%d %d", q, vars[q]); } }
 				if (r != 0 && dl_ns (o) > vf_now ()) { vf_violation ("early-timeout", "nsync_counter_wait returned non-zero before its deadline"); } } break;
@@ -397,6 +430,7 @@ static int parse_op (char *s, struct op *o) {
 	else if (IS ("inc")) { o->code = OP_INC; o->a = A (1, "x"); }
 	else if (IS ("dec")) { o->code = OP_DEC; o->a = A (1, "x"); }
 	else if (IS ("yield")) { o->code = OP_YIELD; }
+	else if (IS ("after_blocked")) { o->code = OP_AFTER_BLOCKED; o->a = n > 1 ? atoi (tok[1]) : 0; }
 	else if (IS ("cvwait")) { o->code = OP_CVWAIT; o->a = A (1, "cv"); o->b = A (2, "mu"); parse_dl (n > 3 ? tok[3] : NULL, o); o->e = n > 4 ? objnum (tok[4], "n") : -1; }
 	else if (IS ("await")) { o->code = OP_AWAIT; o->a = A (1, "cv"); o->b = A (2, "mu"); o->c = A (3, "x"); o->nobj = n > 4 ? atoi (tok[4]) : 0; parse_dl (n > 5 ? tok[5] : NULL, o); o->e = n > 6 ? objnum (tok[6], "n") : -1; }
 	else if (IS ("signal")) { o->code = OP_SIGNAL; o->a = A (1, "cv"); }
@@ -446,7 +480,7 @@ static struct prog preprog;
 static char *scen_lines[256]; static int nscen_lines;
 static int parse_scenario (char **lines, int nlines) {
 	int i;
-	nmu = 1; ncv = 0; nvar = 0; nonce = 0; nsem = 0; nconds = 0; nprogs = 0; sem_binary = 0; expect_stuck_ok = 0; preprog.n = 0;
+	nmu = 1; ncv = 0; nvar = 0; nonce = 0; nsem = 0; nconds = 0; nprogs = 0; sem_binary = 0; expect_stuck_ok = 0; once_cb_len = 4; nchist = 0; preprog.n = 0;
 	for (i = 0; i != MAXOBJ; i++) { var_mu[i] = -1; }
 	/* first pass: sizes */
 	for (i = 0; i != nlines; i++) {
@@ -459,6 +493,7 @@ static int parse_scenario (char **lines, int nlines) {
 			if ((p = strstr (l, "once=")) != NULL) { nonce = atoi (p + 5); }
 			if ((p = strstr (l, "sem=")) != NULL) { nsem = atoi (p + 4); }
 		} else if (strncmp (l, "sem ", 4) == 0) { sem_binary = (strstr (l, "binary") != NULL); }
+		else if (strncmp (l, "oncecb ", 7) == 0) { once_cb_len = atoi (l + 7); if (once_cb_len < 1) { once_cb_len = 1; } }
 		else if (strncmp (l, "expect stuck-ok", 15) == 0) { expect_stuck_ok = 1; }
 	}
 	mus = (nsync_mu *) vf_arena_alloc (sizeof (nsync_mu) * (nmu + 1)); memset (mus, 0, sizeof (nsync_mu) * (nmu + 1));
@@ -509,6 +544,7 @@ static int run_one (char **lines, int nlines, struct vf_config *cfg, FILE *out) 
 	if (preprog.n != 0) { run_prog (&preprog); }
 	for (i = 0; i != nprogs; i++) { vf_spawn (&run_prog, &progs[i]); }
 	outcome = vf_run ();
+	if (outcome == VF_OK || outcome == VF_STUCK) { chist_check (); if (vf_violation_text () != NULL && outcome == VF_OK) { outcome = VF_ORACLE; } }
 	if (outcome == VF_STUCK) {
 		/* C06 at quiescence: nobody can move any more (so no critical section is in progress); a thread still
 		   inside nsync_mu_wait whose condition is TRUE has been left asleep by the release that made it true —
